@@ -191,6 +191,10 @@ class Driver:
             out.pop()
         if len(out) != len(lines):
             raise RuntimeError(f"driver returned {len(out)} lines for {len(lines)} requests; stderr={p.stderr[:500]}")
+        if any("res=stats:{" in l for l in out):
+            # the model's `stats` result is the raw dict; apply the implementation's type conversion before anybody compares
+            from clientlib import canon_model_line
+            out = [canon_model_line(l) for l in out]
         return out
 
 
